@@ -551,8 +551,35 @@ def _shape_ifs(tree: ast.AST) -> tuple[int, int]:
     return flipped, flattened
 
 
+_LOG_METHODS = {"debug", "info", "warning", "warn", "error", "critical", "exception", "log"}
+
+
+def _strip_logging(tree: ast.Module) -> int:
+    """statements that only write to the module logger (`log.info(...)`, `logging.debug(...)`) are dropped: they do not
+    take part in any property, and adding or removing one must not change what a loop or branch looks like to a rule"""
+    loggers = {"logging"}
+    for n in tree.body:
+        if isinstance(n, ast.Assign) and isinstance(n.value, ast.Call) and ast.unparse(n.value.func).endswith("getLogger"):
+            loggers |= {t.id for t in n.targets if isinstance(t, ast.Name)}
+    done = 0
+    for holder in ast.walk(tree):
+        for fld in ("body", "orelse", "finalbody"):
+            block = getattr(holder, fld, None)
+            if not isinstance(block, list) or not block or not isinstance(block[0], ast.stmt):
+                continue
+            keep = [s for s in block if not (isinstance(s, ast.Expr) and isinstance(s.value, ast.Call) and isinstance(s.value.func, ast.Attribute) and s.value.func.attr in _LOG_METHODS
+                                             and isinstance(s.value.func.value, ast.Name) and s.value.func.value.id in loggers)]
+            if len(keep) != len(block):
+                done += len(block) - len(keep)
+                if not keep and fld == "body":
+                    keep = [ast.copy_location(ast.Pass(), block[0])]
+                block[:] = keep
+    return done
+
+
 def normal_form(tree: ast.Module) -> ast.Module:
     """the name-independent part: run before local names are alpha-normalised"""
+    _strip_logging(tree)
     tree = _Canon(sort_operands=False).visit(tree)
     if not os.environ.get("NGOSA_NO_LOOPS"):
         for node in ast.walk(tree):
